@@ -2,7 +2,7 @@
    The unchanged code violates the statement on the class [kf_c01] (known finding
    KF-ceil-window); the theorem covers everything outside it, the class is shown to be
    exactly the violating set, and the witnesses are replayed on the real code on every run. *)
-From HT Require Import Base.Prelude Num.Arith Amm.Formulas Amm.Known Proofs.C01Proofs.
+From HT Require Import Base.Prelude Num.Arith Amm.Formulas Amm.Guards Amm.Known World.World Proofs.C01Proofs Proofs.LedgerProofs Proofs.SystemPoolProofs.
 
 Theorem C01_fn :
   forall x y a c n s m : N,
@@ -40,6 +40,25 @@ Example C01_nonvacuous :
   /\ kf_c01 30000000000 20000000000 1500000000 3000000000000000 = false.
 Proof. split; vm_compute; reflexivity. Qed.
 
+(* ---- system level: the pair contract's swap on the world model (entered directly, through the cw20 hook
+   or as a router hop: all three reduce to [pair_swap], see C02_delivered_execute / C02_delivered_hook /
+   C13_hop_swaps_whole_balance).  [w] already holds the delivered offer, so the reserves before the swap are
+   (bal w offer p - amount, bal w ask p); outside the known rounding class the product of the two actual
+   reserves does not fall and the reserve paid from stays positive. *)
+Theorem C01_sys : forall w p ps funds sender offer amount bp ms to w' ret spread comm,
+  pair_swap w p ps funds sender offer amount bp ms to = Ok (w', (ret, spread, comm)) ->
+  let ask := if asset_eqb offer (p_a0 ps) then p_a1 ps else p_a0 ps in
+  let rcv := match to with Some t => t | None => sender end in
+  asset_eqb (p_a0 ps) (p_a1 ps) = false -> rcv <> p ->
+  bal w offer p < W128 -> bal w ask p < W128 -> amount < W128 -> p_comm ps <= D ->
+  kf_c01 (bal w offer p - amount) (bal w ask p) amount (p_comm ps) = false ->
+  amount <= bal w offer p /\
+  bal w' offer p = bal w offer p /\ bal w' ask p = bal w ask p - ret /\ ret <= bal w ask p /\
+  (bal w offer p - amount) * bal w ask p <= bal w' offer p * bal w' ask p /\
+  (0 < bal w ask p -> 0 < bal w' ask p).
+Proof. exact pair_swap_product. Qed.
+
+Print Assumptions C01_sys.
 Print Assumptions C01_fn.
 Print Assumptions C01_fn_window_exact.
 Print Assumptions C01_refuted.
